@@ -10,6 +10,7 @@ import (
 	"strings"
 
 	mqtt "github.com/mochi-mqtt/server/v2"
+	"github.com/mochi-mqtt/server/v2/packets"
 	"github.com/mochi-mqtt/server/v2/zzvrt"
 
 	"verif/explore"
@@ -32,9 +33,26 @@ import (
 //   rc0 | rc1          a reconnects with clean start 0 | 1 (and re-subscribes if no session is present)
 //   to0 | to1          a opens a second connection while the first is live (takeover)
 //   apub:<q>:<id>      a publishes its own message a<k> at QoS q with client-chosen packet id
-//   adup:<id>          a retransmits its QoS 2 PUBLISH <id> with DUP 1 (before PUBREL)
+//   adup:<id>          a retransmits its QoS 2 PUBLISH <id> with DUP 1 (before PUBREL); adup=1: at any
+//                      time (C10), adup=2: only while the PUBLISH packets a sent on the connection for
+//                      incomplete exchanges stay below the server's Receive Maximum (C11)
 //   arel:<id>          a sends PUBREL <id> for its own QoS 2 publish
 //   tick               the clock advances (C12: Created seconds differ / wrap)
+//   failnext           (arg "wf=N" pool; needs apubs=0) fault injection: the link of a's current
+//                      connection breaks in the broker->client direction: the NEXT write of the
+//                      broker to it fails (world.Conn.FailWriteAt) and a sees nothing the broker
+//                      writes from now on; a's own packets still reach the broker. At the end of
+//                      the step in which the write failed the connection is dropped. Reference
+//                      model: a packet a sent and the broker processed (OnPacketProcessed) counts
+//                      (PUBREC => Recd: PUBREL, never PUBLISH, after the next CONNACK sp=1); a
+//                      message whose PUBLISH was lost by the failed write is still only Queued.
+//   apubr:<k>:<q>:<id> a publishes r<n> at QoS q to a topic on which the broker refuses publishes
+//                      (refuse=<kinds>: x = write denied by the ACL hook, y = rejected by the publish
+//                      hook with reason 0x97, z = $SYS topic name); a publish answered with a
+//                      PUBACK/PUBREC >= 0x80 is complete (C11)
+//   burst:<q>:<sizes>  p sends one PUBLISH per letter of <sizes> (s = payload is the tag, l = tag
+//                      padded beyond the subscriber's write buffer size) in ONE network segment;
+//                      the broker runs only after the last one (C12: backlog in a's outbound queue)
 //   !alt:<c0.c1...>    re-executes the PREVIOUS op with the given choices at the map
 //                      iteration points of Inflight.GetAll (C12; see qosRun)
 
@@ -66,12 +84,17 @@ type qMsg struct {
 	collided bool   // a's own PUBLISH used this packet id while the message was outstanding
 	lost     bool   // the broker told us it no longer knows the message
 	tick     int    // number of clock advances before it was published
+	relFault bool   // a's PUBREC was processed by the broker but the write of the PUBREL failed (injected)
+	large    bool   // payload padded to at least the subscriber's write buffer size
+	burst    int    // >0: number of the burst (one network segment of the publisher) it was sent in
 }
 
 type qIn struct {
 	tag      string
 	crossAck bool // a acknowledged an outbound message with the same id while this exchange was held
 	reconn   bool
+	tx       int  // cfg.dupcount: PUBLISH packets of this exchange a sent on the current connection
+	stuck    bool // the broker never answered the PUBLISH: a has to regard it as unacknowledged
 }
 
 type qFinding struct{ Key, Msg string }
@@ -100,6 +123,35 @@ type qModel struct {
 	arelConn   int  // connection on which a last sent a PUBREL of its own
 	resendConn int  // last connection whose establishment carried PUBLISH packets
 	stepQos0   bool // the current step is a QoS 0 publish of a
+	armed      bool // failnext: the next write to a's current connection fails / has failed (link broken)
+	nfault     int
+	nref       int  // a's publishes to refusing topics so far (pool)
+	nrefConn   int  // ... answered with an error acknowledgement on this connection (not part of the key)
+	ndupConn   int  // DUP retransmissions on this connection (not part of the key)
+	refConn    int  // connection on which a publish of a was last answered with PUBACK/PUBREC >= 0x80
+	dupConn    int  // cfg.dupcount: connection on which a last retransmitted an open QoS 2 PUBLISH
+	dupAtLimit bool // the current step is a DUP retransmission not covered by the per-packet reading of Receive Maximum
+	nburst     int
+}
+
+// qTag: the message tag is the payload up to the first '.', the rest is padding.
+func qTag(payload string) string {
+	if i := strings.IndexByte(payload, '.'); i >= 0 {
+		return payload[:i]
+	}
+	return payload
+}
+
+// inCount counts, for the server's Receive Maximum, a's own unacknowledged publishes:
+// msgs = incomplete exchanges (the reading of the property: a retransmission is the same
+// publish), pks = PUBLISH packets sent on this connection for them (the most conservative
+// reading of MQTT-3.3.4-7: a same-connection retransmission is one more packet).
+func (q *qModel) inCount() (msgs, pks int) {
+	for _, x := range q.in {
+		msgs++
+		pks += x.tx
+	}
+	return
 }
 
 // redelivered: some message still outstanding on this connection was (re)transmitted as
@@ -123,10 +175,16 @@ func (q *qModel) String() string {
 	var b strings.Builder
 	for _, m := range q.msgs {
 		fmt.Fprintf(&b, "%s/q%d/%s/%d/c%v/r%v/%s/%v%v%v%v%v%d ", m.tag, m.qos, qStateNames[m.st], m.pid, m.lastConn == q.conn, m.relConn == q.conn, m.how+fmt.Sprint(m.connTx == q.conn), m.fc, m.heldBack, m.offline, m.collided, m.lost, m.tick)
+		if m.relFault {
+			b.WriteString("rf ")
+		}
+		if m.large || m.burst > 0 {
+			fmt.Fprintf(&b, "L%v/b%d ", m.large, m.burst)
+		}
 	}
 	var ins []string
 	for id, x := range q.in {
-		ins = append(ins, fmt.Sprintf("%d=%s/%v/%v", id, x.tag, x.crossAck, x.reconn))
+		ins = append(ins, fmt.Sprintf("%d=%s/%v/%v/%d/%v", id, x.tag, x.crossAck, x.reconn, x.tx, x.stuck))
 	}
 	sort.Strings(ins)
 	var fs []string
@@ -134,7 +192,7 @@ func (q *qModel) String() string {
 		fs = append(fs, fmt.Sprintf("%s=%d", t, n))
 	}
 	sort.Strings(fs)
-	return fmt.Sprintf("msgs[%s] old%d in%v fwd%v conn=%v rm=%d pools=%d,%d,%d,%d nd=%v ar=%v er=%v rs=%v", b.String(), len(q.old), ins, fs, q.connected, q.rm, q.npub, q.nconn, q.ain, q.ticks, q.nondefMap, q.arelConn == q.conn, q.everRel, q.resendConn == q.conn)
+	return fmt.Sprintf("msgs[%s] old%d in%v fwd%v conn=%v rm=%d pools=%d,%d,%d,%d nd=%v ar=%v er=%v rs=%v wf=%d/%v ref=%d,%v,%v nb=%d", b.String(), len(q.old), ins, fs, q.connected, q.rm, q.npub, q.nconn, q.ain, q.ticks, q.nondefMap, q.arelConn == q.conn, q.everRel, q.resendConn == q.conn, q.nfault, q.armed, q.nref, q.refConn == q.conn, q.dupConn == q.conn, q.nburst)
 }
 
 func (q *qModel) byTag(tag string) *qMsg {
@@ -178,34 +236,76 @@ func (q *qModel) lostCause(m *qMsg) (prop, cause string) {
 }
 
 // published registers a message accepted for a's session.
-func (q *qModel) published(tag string, qos byte) {
+func (q *qModel) published(tag string, qos byte) *qMsg {
 	_, strict := q.outstanding()
 	queued := 0
 	for _, m := range q.msgs {
-		if m.st == qQueued {
+		if m.st == qQueued && m.qos > 0 {
 			queued++
 		}
 	}
 	m := &qMsg{tag: tag, qos: qos, seq: len(q.msgs), offline: !q.connected, tick: q.ticks}
-	if q.rm > 0 && strict+queued >= q.rm {
+	if q.rm > 0 && strict+queued >= q.rm && qos > 0 {
 		m.fc = true
+	}
+	if qos == 0 && !q.connected {
+		m.st = qDropped // at most once: nothing is kept for an offline subscriber
 	}
 	q.msgs = append(q.msgs, m)
 	q.stepPubs[tag] = true
+	return m
+}
+
+// ordShape names the shape of an order inversion: first was transmitted before late
+// although late was published earlier.
+func (q *qModel) ordShape(first, late *qMsg) string {
+	ord := "default-map-order"
+	if q.nondefMap {
+		ord = "nondefault-map-order"
+	}
+	if late.tick != first.tick {
+		ord += ":created-seconds-differ"
+	} else if q.cfg.maxPID > 0 && first.seq >= q.cfg.maxPID {
+		ord += ":after-packet-id-wrap"
+	}
+	if first.burst > 0 && first.burst == late.burst {
+		ord += ":same-segment-burst"
+		if first.large && !late.large {
+			ord += ":large-overtakes-small"
+		}
+	}
+	return ord
 }
 
 // recv feeds the packets a received during the current step to the model.
 func (q *qModel) recv(pks []ref.Packet) {
+	if q.armed {
+		return // the link is broken in the broker->client direction: a sees none of this
+	}
 	for _, p := range pks {
 		switch p.Type {
 		case ref.PUBLISH:
-			tag := string(p.Payload)
+			tag := qTag(string(p.Payload))
 			if q.old[tag] {
 				q.find("c09", "delivered-after-clean-start", "PUBLISH of %s (accepted before the clean start) received: %s", tag, p)
 				continue
 			}
 			m := q.byTag(tag)
-			if m == nil || p.Qos == 0 {
+			if m == nil || (p.Qos == 0 && m.qos != 0) {
+				continue
+			}
+			if p.Qos == 0 {
+				// C12 for QoS 0 (at most once: a message may be missing, but those that arrive
+				// arrive in publish order)
+				if m.st == qQueued || m.st == qDropped {
+					m.st, m.lastConn, m.how = qDone, q.conn, "direct"
+					for _, o := range q.msgs {
+						if o.seq > m.seq && o.qos == 0 && o.st == qDone && o.lastConn != 0 {
+							q.find("c12", "order:qos0:"+q.ordShape(o, m), "%s (published #%d) was transmitted before %s (published #%d), both QoS 0; trigger=%s", o.tag, o.seq, m.tag, m.seq, q.trigger)
+						}
+					}
+					q.count("first_tx_qos0")
+				}
 				continue
 			}
 			switch m.st {
@@ -251,15 +351,7 @@ func (q *qModel) recv(pks []ref.Packet) {
 				// C12: first transmissions in publish order (same publisher, topic, QoS)
 				for _, o := range q.msgs {
 					if o.seq < m.seq && o.qos == m.qos && o.st == qQueued {
-						ord := "default-map-order"
-						if q.nondefMap {
-							ord = "nondefault-map-order"
-						}
-						if o.tick != m.tick {
-							ord += ":created-seconds-differ"
-						} else if q.cfg.maxPID > 0 && m.seq >= q.cfg.maxPID {
-							ord += ":after-packet-id-wrap"
-						}
+						ord := q.ordShape(m, o)
 						q.find("c12", "order:"+m.how+":"+ord, "first transmission of %s (published #%d) precedes that of %s (published #%d, still not transmitted); trigger=%s", m.tag, m.seq, o.tag, o.seq, q.trigger)
 					}
 				}
@@ -285,7 +377,11 @@ func (q *qModel) recv(pks []ref.Packet) {
 					}
 				}
 			case qRecd:
-				q.find("c09", "publish-resent-after-pubrec", "%s (PUBREC sent, id %d) was transmitted as PUBLISH again: %s", tag, m.pid, p)
+				shape := ""
+				if m.relFault {
+					shape = ":pubrel-write-failed"
+				}
+				q.find("c09", "publish-resent-after-pubrec"+shape, "%s (PUBREC sent and processed by the broker, id %d) was transmitted as PUBLISH again: %s", tag, m.pid, p)
 			case qDone:
 				if !m.lost {
 					q.find("c09", "resent-after-acknowledgement", "%s was acknowledged (id %d) and is transmitted again: %s; trigger=%s", tag, m.pid, p, q.trigger)
@@ -334,13 +430,23 @@ func (q *qModel) recv(pks []ref.Packet) {
 			}
 		case ref.DISCONNECT:
 			if p.ReasonCode == 0x93 {
-				held := len(q.in)
+				held, _ := q.inCount()
 				lim := q.cfg.srm
 				if lim == 0 {
 					lim = 1024
 				}
 				if held <= lim {
 					shape := "other"
+					switch {
+					case q.dupAtLimit:
+						// only reachable with dupcount=0: the retransmission is the same publish (the
+						// property counts publishes), but one more PUBLISH packet on this connection
+						shape = "on-same-connection-dup-retransmission-at-limit"
+					case q.refConn == q.conn:
+						shape = "after-refused-publish"
+					case q.dupConn == q.conn:
+						shape = "after-dup-retransmission"
+					}
 					for _, o := range q.msgs {
 						if o.st == qRecd {
 							shape = "while-outbound-qos2-awaits-pubcomp"
@@ -375,10 +481,16 @@ type qCfg struct {
 	aids    int
 	abase   int
 	aqos    string
-	adup    bool
+	adup    int    // 0: no DUP retransmissions; 1: any time (C10); 2: only while a stays within the server's Receive Maximum also when every PUBLISH packet sent on the connection is counted (C11); 3: while the publishes are within it, at most one packet beyond (not used in the tiers)
+	refuse  string // kinds of refusing topics a publishes to: x (ACL), y (publish hook), z ($SYS)
+	rpubs   int    // pool of a's publishes to refusing topics
+	wbuf    int    // >0: Options.ClientNetWriteBufferSize
+	bursts  string // '.'-separated size patterns of the burst op, e.g. sls.ssls
+	nbursts int    // pool of bursts
 	maps    bool
 	closure string
 	ticks   int
+	wf      int
 }
 
 func argStr(arg, name, def string) string {
@@ -395,7 +507,9 @@ func parseQCfg(prop, arg string) qCfg {
 		prop: prop, aVer: byte(argInt(arg, "v", 5)), rm: argInt(arg, "rm", 0), srm: argInt(arg, "srm", 0), maxPID: argInt(arg, "maxpid", 0),
 		pubs: argInt(arg, "pubs", 3), qos: argStr(arg, "qos", "12"), conns: argInt(arg, "conns", 2), clean: argInt(arg, "clean", 0) == 1,
 		take: argInt(arg, "take", 0) == 1, apubs: argInt(arg, "apubs", 0), aids: argInt(arg, "aids", 2), abase: argInt(arg, "abase", 0), aqos: argStr(arg, "aqos", "12"),
-		adup: argInt(arg, "adup", 0) == 1, maps: argInt(arg, "maps", 0) == 1, closure: argStr(arg, "closure", ""), ticks: argInt(arg, "ticks", 0),
+		adup: argInt(arg, "adup", 0), refuse: argStr(arg, "refuse", ""), rpubs: argInt(arg, "rpubs", 0), wbuf: argInt(arg, "wbuf", 0),
+		bursts: argStr(arg, "bursts", ""), nbursts: argInt(arg, "nbursts", 1), maps: argInt(arg, "maps", 0) == 1, closure: argStr(arg, "closure", ""), ticks: argInt(arg, "ticks", 0),
+		wf: argInt(arg, "wf", 0),
 	}
 }
 
@@ -526,6 +640,24 @@ func qosExec(cfg qCfg, ops []string, alts [][]int, prefix []int) (explore.HistRe
 			c.ReceiveMaximum = uint16(cfg.srm)
 		}
 	}}
+	if cfg.wbuf > 0 {
+		wcfg.Opts = func(o *mqtt.Options) { o.ClientNetWriteBufferSize = cfg.wbuf }
+	}
+	if cfg.refuse != "" {
+		wcfg.Hook = func(rh *world.RecHook) {
+			if strings.Contains(cfg.refuse, "x") {
+				rh.ACL = func(cl *mqtt.Client, topic string, write bool) bool { return !(write && topic == "x") }
+			}
+			if strings.Contains(cfg.refuse, "y") {
+				rh.Publish = func(cl *mqtt.Client, pk packets.Packet) (packets.Packet, error) {
+					if pk.TopicName == "y" {
+						return pk, packets.ErrQuotaExceeded
+					}
+					return pk, nil
+				}
+			}
+		}
+	}
 	if cfg.maps {
 		site = getAllSite()
 		wcfg.Exploring = true
@@ -580,6 +712,23 @@ func qosExec(cfg qCfg, ops []string, alts [][]int, prefix []int) (explore.HistRe
 	endStep := func() {
 		scanEvents()
 		collectS()
+		if q.armed {
+			c := h.Cl["a"].C
+			switch {
+			case !q.connected:
+				q.armed = false
+			case c.FailWriteAt > 0 && c.Writes >= c.FailWriteAt:
+				// the write failed during this step: the link is dead, the peer goes away
+				q.count("write_faults_fired")
+				h.logf("a: write #%d to the connection failed (injected); broker closed=%v; link dropped", c.FailWriteAt, c.Closed)
+				if !c.Closed {
+					h.Cl["a"].Drop()
+				}
+				h.Cl["a"].Poll()
+				q.connected = false
+				q.armed = false
+			}
+		}
 		if q.connected && h.Cl["a"].Closed() {
 			q.connected = false
 			if q.trigger != "drop" {
@@ -587,6 +736,10 @@ func qosExec(cfg qCfg, ops []string, alts [][]int, prefix []int) (explore.HistRe
 			}
 		}
 		for _, m := range q.msgs {
+			if m.st == qQueued && m.qos == 0 {
+				m.st = qDropped // at most once: not delivered in the step it was published in; a later arrival is still judged for order
+				q.count("qos0_not_delivered_at_quiescence")
+			}
 			if m.st == qQueued && q.connected {
 				if !m.heldBack {
 					q.count("messages_held_back_while_connected")
@@ -600,6 +753,7 @@ func qosExec(cfg qCfg, ops []string, alts [][]int, prefix []int) (explore.HistRe
 		old := h.Cl["a"]
 		q.conn++
 		q.connStep = true
+		q.armed = false // a fault belongs to the previous connection
 		got := h.connect("a", aconn(clean))
 		q.connected = true
 		q.rm = 0
@@ -628,7 +782,9 @@ func qosExec(cfg qCfg, ops []string, alts [][]int, prefix []int) (explore.HistRe
 		}
 		for _, x := range q.in {
 			x.reconn = true
+			x.tx = 0
 		}
+		q.nrefConn, q.ndupConn = 0, 0
 		// expectations for the resumed session, from the states before this connection
 		type exp struct {
 			m  *qMsg
@@ -666,7 +822,15 @@ func qosExec(cfg qCfg, ops []string, alts [][]int, prefix []int) (explore.HistRe
 				if m.relConn != q.conn {
 					pr, cause := q.lostCause(m)
 					if pr == "c09" {
-						cause = "pubrel-not-resent:" + strings.TrimPrefix(cause, "lost:")
+						switch {
+						case !m.relFault:
+							cause = "pubrel-not-resent:" + strings.TrimPrefix(cause, "lost:")
+						case cause == "lost:other":
+							cause = "pubrel-not-resent:pubrel-write-failed"
+						default:
+							// the broker had already lost the message (known deferral shapes): the failing
+							// PUBREL (0x92) that says so is what could not be written; keep that shape's key
+						}
 					}
 					q.find(pr, cause, "session resumed but PUBREL for %s (id %d, PUBREC sent) was not resent: %v", m.tag, m.pid, got)
 					m.lost = true
@@ -690,6 +854,7 @@ func qosExec(cfg qCfg, ops []string, alts [][]int, prefix []int) (explore.HistRe
 		f := fields(op)
 		q.trigger = f[0]
 		q.stepQos0 = false
+		q.dupAtLimit = false
 		q.stepPubs = map[string]bool{}
 		num := func(i int) int { n, _ := strconv.Atoi(f[i]); return n }
 		switch f[0] {
@@ -700,7 +865,7 @@ func qosExec(cfg qCfg, ops []string, alts [][]int, prefix []int) (explore.HistRe
 			tag := fmt.Sprintf("m%d", q.npub)
 			q.published(tag, qos)
 			got := h.do("p", pub("t", tag, qos, ppid))
-			accepted := false
+			accepted := qos == 0
 			for _, p := range got {
 				if p.Type == ref.PUBREC && qos == 2 {
 					accepted = true
@@ -745,7 +910,27 @@ func qosExec(cfg qCfg, ops []string, alts [][]int, prefix []int) (explore.HistRe
 				q.recv(h.do("a", ref.Packet{Type: ref.PUBCOMP, PacketID: id}))
 			case "rec":
 				m.st = qRecd
+				ev0 := len(h.W.Events)
 				got := h.do("a", ref.Packet{Type: ref.PUBREC, PacketID: id})
+				if c := h.Cl["a"].C; q.armed && c.Writes >= c.FailWriteAt {
+					// the broker's answer could not be written. Did the broker process the PUBREC?
+					processed := false
+					for _, e := range h.W.Events[ev0:] {
+						if e.Name == "OnPacketProcessed" && e.Client == "a" && e.Type == ref.PUBREC && e.PID == id {
+							processed = true
+						}
+					}
+					if processed && c.Pending() == 0 {
+						m.relFault = true
+						q.count("pubrel_write_faults")
+					} else {
+						// either state is acceptable for a client that cannot know: stop following the message
+						m.lost = true
+						m.st = qDone
+						q.count("pubrec_unprocessed_at_fault")
+					}
+					break
+				}
 				var rel *ref.Packet
 				for i := range got {
 					if got[i].Type == ref.PUBREL && got[i].PacketID == id {
@@ -790,8 +975,21 @@ func qosExec(cfg qCfg, ops []string, alts [][]int, prefix []int) (explore.HistRe
 					q.count("client_id_collides_with_outstanding_outbound_id")
 				}
 			}
+			// non-vacuity: this publish would be refused if every refused publish / DUP
+			// retransmission on this connection had kept a slot of the server's Receive Maximum
+			if held, _ := q.inCount(); qos > 0 && cfg.srm > 0 && held+q.nrefConn+q.ndupConn >= cfg.srm {
+				if q.nrefConn > 0 {
+					q.count("own_publish_sensitive_to_slot_kept_by_refused_publish")
+				}
+				if q.ndupConn > 0 {
+					q.count("own_publish_sensitive_to_slot_kept_by_dup_retransmission")
+				}
+			}
 			if qos == 2 {
 				q.in[id] = &qIn{tag: tag}
+				if cfg.adup >= 2 {
+					q.in[id].tx = 1
+				}
 			}
 			q.stepQos0 = qos == 0
 			if qos == 0 {
@@ -829,6 +1027,19 @@ func qosExec(cfg qCfg, ops []string, alts [][]int, prefix []int) (explore.HistRe
 			}
 			pk := pub("u", x.tag, 2, id)
 			pk.Dup = true
+			if cfg.adup >= 2 {
+				_, pks := q.inCount()
+				if lim := cfg.srm; lim > 0 && pks >= lim {
+					q.dupAtLimit = true
+				}
+				x.tx++
+				q.dupConn = q.conn
+				q.ndupConn++
+				q.count("own_dup_retransmissions")
+				if x.reconn {
+					q.count("own_dup_retransmissions_after_reconnect")
+				}
+			}
 			q.recv(h.do("a", pk))
 			collectS()
 			if q.fwd[x.tag] > 1 {
@@ -872,9 +1083,145 @@ func qosExec(cfg qCfg, ops []string, alts [][]int, prefix []int) (explore.HistRe
 				q.find("c10", inKey("inbound-qos2-not-forwarded-once"), "a's QoS 2 exchange %s completed, subscriber holds %d copies", x.tag, q.fwd[x.tag])
 			}
 			delete(q.in, id)
+		case "failnext":
+			q.nfault++
+			q.armed = true
+			c := h.Cl["a"].C
+			c.FailWriteAt = c.Writes + 1
+			h.logf("a: link breaks broker->client: write #%d will fail", c.FailWriteAt)
 		case "tick":
 			q.ticks++
 			h.W.Tick(50000 * 1000)
+		case "apubr":
+			// a's publish to a topic on which the broker refuses publishes
+			kind, qos, id := f[1], byte(num(2)), uint16(num(3))
+			topic := map[string]string{"x": "x", "y": "y", "z": "$SYS/z"}[kind]
+			q.nref++
+			tag := fmt.Sprintf("r%d", q.nref)
+			if qos == 2 {
+				q.in[id] = &qIn{tag: tag}
+				if cfg.adup >= 2 {
+					q.in[id].tx = 1
+				}
+			}
+			q.stepQos0 = qos == 0
+			got := h.do("a", pub(topic, tag, qos, id))
+			answered := qos == 0
+			for _, p := range got {
+				if (p.Type == ref.PUBACK || p.Type == ref.PUBREC) && p.PacketID == id && qos > 0 {
+					answered = true
+					switch {
+					case p.ReasonCode >= 0x80:
+						// MQTT-3.3.4-7 / 4.9: a PUBACK, or a PUBREC with a reason code of 0x80 or
+						// greater, ends the exchange: the publish no longer counts
+						delete(q.in, id)
+						q.refConn = q.conn
+						q.nrefConn++
+						q.count("own_publishes_refused")
+						q.count("own_publishes_refused_" + kind)
+					case p.Type == ref.PUBACK:
+						delete(q.in, id) // accepted and complete
+						q.count("refusable_publish_accepted")
+					default:
+						q.count("refusable_publish_accepted") // QoS 2 exchange open as usual
+					}
+				}
+			}
+			q.recv(got)
+			collectS()
+			if !answered && !h.Cl["a"].Closed() {
+				// unanswered: a has to keep counting it (never completes on this connection)
+				if q.in[id] == nil {
+					q.in[id] = &qIn{tag: tag}
+					if cfg.adup >= 2 {
+						q.in[id].tx = 1
+					}
+				}
+				q.in[id].stuck = true
+				q.count("refusable_publish_unanswered")
+			}
+			if h.Cl["a"].Closed() && qos == 2 {
+				delete(q.in, id)
+			}
+		case "burst":
+			// p sends several PUBLISH packets in one segment
+			qos := byte(num(1))
+			q.nburst++
+			type sent struct {
+				pid uint16
+				m   *qMsg
+			}
+			var ss []sent
+			for _, c := range f[2] {
+				q.npub++
+				ppid++
+				tag := fmt.Sprintf("m%d", q.npub)
+				m := q.published(tag, qos)
+				m.burst = q.nburst
+				payload := tag
+				if c == 'l' {
+					m.large = true
+					n := cfg.wbuf
+					if n == 0 {
+						n = 2048
+					}
+					payload = tag + "." + strings.Repeat("L", n)
+				}
+				pk := pub("t", payload, qos, ppid)
+				h.Cl["p"].Send(pk)
+				h.logf("p: -> %s (no run)", pk)
+				ss = append(ss, sent{ppid, m})
+			}
+			w0 := 0
+			if q.connected {
+				w0 = h.Cl["a"].C.Writes
+			}
+			h.W.Run()
+			got := h.poll("p")
+			for _, x := range ss {
+				accepted := qos == 0
+				for _, p := range got {
+					if p.PacketID == x.pid && (p.Type == ref.PUBREC && qos == 2 || p.Type == ref.PUBACK && qos == 1) && p.ReasonCode < 0x80 {
+						accepted = true
+					}
+				}
+				if !accepted {
+					for i, m := range q.msgs {
+						if m == x.m {
+							q.msgs = append(q.msgs[:i], q.msgs[i+1:]...)
+							break
+						}
+					}
+					q.count("publisher_not_acknowledged")
+				}
+			}
+			for i, m := range q.msgs {
+				m.seq = i
+			}
+			if q.connected {
+				pks := h.poll("a")
+				// non-vacuity: the packets were queued behind one another in a's outbound queue iff the
+				// broker's writer coalesced some of them (fewer writes to the connection than packets)
+				if n := len(pubsOf(pks)); n > 1 && h.Cl["a"].C.Writes-w0 < n {
+					q.count("bursts_backlogged_in_outbound_queue")
+					if strings.Contains(f[2], "sl") {
+						q.count("bursts_backlogged_large_behind_small")
+					}
+				}
+				q.recv(pks)
+			}
+			if qos == 2 {
+				for _, x := range ss {
+					h.do("p", ref.Packet{Type: ref.PUBREL, PacketID: x.pid})
+				}
+				if q.connected {
+					q.recv(h.poll("a"))
+				}
+			}
+			q.count("bursts")
+			if strings.Contains(f[2], "sl") {
+				q.count("bursts_large_behind_small")
+			}
 		}
 	}
 
@@ -923,6 +1270,15 @@ func qosExec(cfg qCfg, ops []string, alts [][]int, prefix []int) (explore.HistRe
 			next = append(next, "pub:"+string(c))
 		}
 	}
+	if cfg.bursts != "" && q.nburst < cfg.nbursts {
+		for _, pat := range strings.Split(cfg.bursts, ".") {
+			if q.npub+len(pat) <= cfg.pubs {
+				for _, c := range cfg.qos {
+					next = append(next, "burst:"+string(c)+":"+pat)
+				}
+			}
+		}
+	}
 	if q.connected {
 		for _, m := range q.msgs {
 			switch {
@@ -941,7 +1297,9 @@ func qosExec(cfg qCfg, ops []string, alts [][]int, prefix []int) (explore.HistRe
 		if q.ain < cfg.apubs && strings.Contains(cfg.aqos, "0") {
 			next = append(next, "apub:0:0") // QoS 0 never counts against the server's Receive Maximum
 		}
-		if q.ain < cfg.apubs && len(q.in) < lim {
+		inMsgs, inPks := q.inCount()
+		within := inMsgs < lim && inPks < lim // one more PUBLISH packet keeps a within the server's Receive Maximum under every reading
+		if q.ain < cfg.apubs && within {
 			for id := cfg.abase + 1; id <= cfg.abase+cfg.aids; id++ {
 				if q.in[uint16(id)] != nil {
 					continue
@@ -958,11 +1316,31 @@ func qosExec(cfg qCfg, ops []string, alts [][]int, prefix []int) (explore.HistRe
 			ids = append(ids, int(id))
 		}
 		sort.Ints(ids)
+		rid := cfg.abase + cfg.aids + 1 // the publishes to refusing topics use their own packet id
+		if q.nref < cfg.rpubs {
+			for _, k := range cfg.refuse {
+				for _, c := range cfg.aqos {
+					switch {
+					case c == '0':
+						next = append(next, fmt.Sprintf("apubr:%s:0:0", string(k)))
+					case within && q.in[uint16(rid)] == nil:
+						next = append(next, fmt.Sprintf("apubr:%s:%s:%d", string(k), string(c), rid))
+					}
+				}
+			}
+		}
 		for _, id := range ids {
-			if cfg.adup {
+			if q.in[uint16(id)].stuck {
+				continue
+			}
+			switch {
+			case cfg.adup == 1, cfg.adup == 2 && inPks < lim, cfg.adup == 3 && inPks <= lim:
 				next = append(next, fmt.Sprintf("adup:%d", id))
 			}
 			next = append(next, fmt.Sprintf("arel:%d", id))
+		}
+		if q.nfault < cfg.wf && !q.armed && cfg.apubs == 0 {
+			next = append(next, "failnext")
 		}
 		if q.nconn < cfg.conns {
 			next = append(next, "drop")
@@ -1035,7 +1413,7 @@ func qosExec(cfg qCfg, ops []string, alts [][]int, prefix []int) (explore.HistRe
 				}
 				sort.Ints(ids)
 				for _, id := range ids {
-					if q.connected {
+					if q.connected && q.in[uint16(id)] != nil && !q.in[uint16(id)].stuck {
 						applyOp(fmt.Sprintf("arel:%d", id))
 						endStep()
 						progress = true
